@@ -2,12 +2,14 @@
 
 (a) PROOF   GrassProofs/C14.lean about the model Grass/Builtins.lean
 (b) TIE     every generated call is evaluated by real grass (under its global name AND under its
-            sass:list / sass:map / sass:string member name) and by the as-found model; the
-            observations {inspect text, type-of, list-separator, is-bracketed, length} must agree
+            sass:list / sass:map / sass:string member name) and by the model of the code as it
+            stands (`Sw.now`); the observations {inspect text, type-of, list-separator,
+            is-bracketed, length} must agree
 (c) DIRECT  the laws the theorems state are evaluated by the Lean driver (`blt law …`) on grass's
-            own answers; and every call on which the documented variant of the model differs from
-            the as-found variant while grass agrees with the as-found one is a failure of the
-            documented semantics (known findings K14a–K14d).
+            own answers; and every call on which the model of the code before the repairs of
+            K14a–K14d (`Sw.beforeFix`) differs from `Sw.now` while grass sides with the old
+            behaviour is a failure of the documented semantics (a regression; no known finding
+            covers it any more).
 """
 import json
 import re
@@ -552,6 +554,7 @@ ERR_CLASSES = [
     (r'Must be "space", "comma"', 'bad-separator'),
     (r'\$limit: Must be 1 or greater', 'limit-range'),
     (r'Expected \$args to contain a key', 'no-key'),
+    (r'Expected \$args to contain a value', 'no-value'),
     (r'At least two elements are required', 'too-few-elems'),
     (r'No argument named', 'no-named-arg'),
 ]
@@ -808,6 +811,8 @@ def gen_call(g, f):
         m = g.mapish()
         ks = g.path_keys(m)
         args = [m] + ks + [g.value(1, False)]
+        if x < 0.08:
+            args = args[:r.choice([1, 2])]
     elif f == 'deep-merge':
         m1 = g.mapish()
         m2 = g.mapish()
@@ -870,14 +875,14 @@ FUNCS = list(MODULE)
 
 # minimised interesting cases; run first on every run
 CORPUS = [
-    # K14a: append takes a map / argument list as one element
+    # K14a (repaired 6e994a1): append took a map / argument list as one element; must now give the documented answer
     ('append', [('map', [(ustr('a'), num(1)), (ustr('c'), num(2))]), ustr('b')]),
     ('append', [('arglist', [num(1), num(2)]), ustr('b')]),
     ('append', [('map', []), ustr('b')]),
-    # K14b: join takes an argument list as one element
+    # K14b (repaired 30ed358): join took an argument list as one element
     ('join', [('arglist', [num(1), num(2)]), lst([num(3), num(4)], 'comma')]),
     ('join', [lst([num(3), num(4)]), ('arglist', [num(1), num(2)])]),
-    # K14c: an index that is an integer up to 1e-11 just above the length
+    # K14c (repaired ca51d14): an index that is an integer up to 1e-11 just above the length; integer check before range check
     ('nth', [lst([ustr('a'), ustr('b'), ustr('c')]), lit(Fraction('3.000000000001'))]),
     ('nth', [lst([ustr('a'), ustr('b'), ustr('c')]), lit(Fraction('-3.000000000001'))]),
     ('set-nth', [lst([ustr('a'), ustr('b'), ustr('c')]), lit(Fraction('3.000000000001')), ustr('z')]),
@@ -886,9 +891,15 @@ CORPUS = [
     ('nth', [lst([ustr('a'), ustr('b'), ustr('c')]), lit(Fraction('3.5'))]),
     ('nth', [lst([ustr('a'), ustr('b'), ustr('c')]), lit(Fraction('1.5'))]),
     ('set-nth', [lst([ustr('a'), ustr('b'), ustr('c')]), lit(Fraction('3.5')), ustr('z')]),
-    # K14d: map.set with fewer than three arguments
+    # K14d (repaired 1b37b59): map.set with fewer than three arguments is an error
     ('map-set', [('map', [(ustr('a'), num(1))]), num(2)]),
     ('map-set', [('map', [(ustr('a'), num(1))])]),
+    ('map-set', [num(1), num(2)]),
+    ('map-set', []),
+    ('nth', [lst([ustr('a'), ustr('b'), ustr('c')]), lit(Fraction('-3.5'))]),
+    ('nth', [lst([ustr('a'), ustr('b'), ustr('c')]), lit(Fraction('100.5'))]),
+    ('append', [('arglist', []), ustr('b')]),
+    ('join', [('arglist', []), ('arglist', [])]),
     # bracket / separator corners
     ('join', [lst([ustr('a'), ustr('b')]), lst([ustr('c')], 'comma'), ustr('auto'), num(0)]),
     ('join', [lst([ustr('a')], 'undecided', True), lst([ustr('b'), ustr('c')], 'comma')]),
@@ -963,7 +974,7 @@ CORPUS = [
 
 
 def known_tag(f, args):
-    """which known deviation a documented≠as-found call belongs to"""
+    """which repaired deviation a now≠before-fix call belongs to (descriptive only: nothing is suppressed)"""
     if f == 'append':
         return 'K14a'
     if f == 'join':
@@ -1055,8 +1066,8 @@ def model_calls(cases):
     lines = []
     for f, args in cases:
         body = f"{f} {len(args)} " + " ".join(enc(a) for a in args)
-        lines.append("blt call 1 " + body)
-        lines.append("blt call 0 " + body)
+        lines.append("blt call now " + body)
+        lines.append("blt call beforefix " + body)
     outs = driver(lines)
     return [(outs[2 * i], outs[2 * i + 1]) for i in range(len(cases))]
 
@@ -1169,14 +1180,14 @@ def evaluate(ck, pool, cases, direct_only=False):
             ck.cov["model_disagreements"] += 1
             ck.hist("disagree:" + f)
             if len(ck.disagreements) < 10:
-                ck.disagreements.append({"call": text, "model_as_found": now, "impl": [list(p) for p in per]})
-        # documented semantics: the documented variant differs and grass is not on its side
+                ck.disagreements.append({"call": text, "model_now": now, "impl": [list(p) for p in per]})
+        # regression guard: the pre-repair model differs here and grass answers as it did before the repair
         if d != m and d[0] != 'unsupported':
-            if not all(agrees(p, d) for p in per):
-                tag = known_tag(f, args)
-                ck.hist("documented≠as-found:" + (tag or f))
-                failing.append({"call": text, "why": "grass's answer differs from the documented semantics",
-                                "documented": doc, "impl": [list(p[:2]) for p in per], "tags": [tag] if tag else []})
+            ck.hist("now≠before-fix:" + (known_tag(f, args) or f))
+            if all(agrees(p, d) for p in per):
+                failing.append({"call": text, "why": "grass answers as it did before the repair of " + (known_tag(f, args) or "?")
+                                + ", not as documented", "documented": now, "before_fix": doc,
+                                "impl": [list(p[:2]) for p in per], "tags": []})
         if any(p[0] == 'status' for p in per):
             failing.append({"call": text, "why": "abnormal status", "impl": [list(p) for p in per], "tags": []})
     return failing
@@ -1259,7 +1270,7 @@ def gen_law(g):
     if name == 'length_append':
         l, v = listish_for_law(g), simple_value(g)
         ex = [f"length({S(l)})", f"length(append({S(l)}, {S(v)}))"]
-        tag = 'K14a' if l[0] in ('map', 'arglist') else None
+        tag = None
         return name, ex, lambda vs: "blt law length_append 2 " + " ".join(map(enc, vs)), tag
     if name == 'nth_set_nth':
         l = simple_list(g, 1) if r.random() < 0.8 else simple_map(g, 1)
@@ -1279,7 +1290,7 @@ def gen_law(g):
     if name == 'length_join':
         a, b = listish_for_law(g), listish_for_law(g)
         ex = [f"length({S(a)})", f"length({S(b)})", f"length(join({S(a)}, {S(b)}))"]
-        tag = 'K14b' if 'arglist' in (a[0], b[0]) else None
+        tag = None
         return name, ex, lambda vs: "blt law length_join 3 " + " ".join(map(enc, vs)), tag
     if name == 'join_sep':
         a, b = simple_list(g), simple_list(g)
@@ -1451,7 +1462,7 @@ def run(tier, seed):
         if k["id"] not in [x["id"] for x in ck.known_seen]:
             ck.notes.append(f"known finding {k['id']} was not reproduced on this run (entry may be stale)")
     if ck.cov["model_disagreements"] and not reported:
-        ck.unproved("correspondence-broken", {"correspondence": "blt call 1 (as-found model Grass.Builtins) vs grass",
+        ck.unproved("correspondence-broken", {"correspondence": "blt call now (model Grass.Builtins, Sw.now) vs grass",
                                               "cases": ck.disagreements})
     return ck.finish()
 
